@@ -31,6 +31,10 @@ func profiles() map[string]world.Profile {
 	guards := map[string]int{"AddFact": 12, "RemFact": 6, "GetFact": 6, "SearchFacts": 6, "AddRule": 8, "RemRule": 5,
 		"GetRule": 4, "EnableRule": 5, "SetParents": 4, "GetParents": 2, "Clear": 3, "StateSize": 4, "ListRules": 4,
 		"SearchRules": 4, "ProcessEvent": 6, "SetReadOnly": 5, "SetKey": 14}
+	// protected locations whose rules write: rules with Env.AddFact actions, keys and read-only mode
+	// coming and going, events (mostly made to match a stored rule) from callers with and without keys
+	guardacts := map[string]int{"AddFact": 6, "RemFact": 3, "GetFact": 5, "AddRule": 16, "RemRule": 2, "EnableRule": 2,
+		"Clear": 1, "StateSize": 3, "ProcessEvent": 30, "SetReadOnly": 8, "SetKey": 12}
 	capacity := map[string]int{"AddFact": 30, "AddRule": 12, "RemFact": 10, "RemRule": 5, "EnableRule": 6,
 		"StateSize": 10, "GetFact": 5, "Clear": 2}
 	parents := map[string]int{"AddFact": 18, "RemFact": 5, "AddRule": 14, "RemRule": 5, "SetParents": 10, "GetParents": 4,
@@ -57,6 +61,7 @@ func profiles() map[string]world.Profile {
 		"rules":        {Name: "rules", Len: 40, Locs: []string{"A"}, Ids: []string{"r1", "r2", "f1"}, Rules: true, MaxFacts: 1000, Weights: rules},
 		"expiry":       {Name: "expiry", Len: 30, Locs: []string{"A"}, Ids: ids, Rules: true, Expiry: true, Cascade: true, MaxFacts: 1000, Weights: expiry},
 		"guards":       {Name: "guards", Len: 50, Locs: []string{"A", "B"}, Ids: ids, Rules: true, Keys: true, Parents: true, SideEffects: true, MaxFacts: 1000, Weights: guards},
+		"guardacts":    {Name: "guardacts", Len: 45, Locs: []string{"A"}, Ids: []string{"r1", "r2", "f1"}, Rules: true, Keys: true, SideEffects: true, MaxFacts: 1000, Weights: guardacts},
 		"capacity":     {Name: "capacity", Len: 40, Locs: []string{"A"}, Ids: []string{"f1", "f2", "f3", "f4", "f5"}, Rules: true, MaxFacts: 3, Weights: capacity},
 		"lifecycle":    {Name: "lifecycle", Len: 45, Locs: []string{"A", "B"}, Ids: []string{"r1", "r2"}, Rules: true, Parents: true, Scheduled: true, MaxFacts: 1000, Weights: lifecycle},
 		"dispatch":     {Name: "dispatch", Len: 40, Locs: []string{"A", "B"}, Ids: []string{"r1", "r2", "r3", "f1", "f2"}, Rules: true, Dispatch: true, Parents: true, MaxFacts: 1000, Weights: dispatch},
